@@ -67,21 +67,20 @@ Record emodel := mkEModel { em_dirs : list string; em_file : string; em_table : 
 Definition is_model_file (fname : string) : bool :=          (* export.rs:320-323 *)
   (has_ext "json" fname || has_ext "yaml" fname || has_ext "yml" fname)%bool.
 
-(* export.rs:198-232: directories are copied verbatim, the file name is cut at its last '.', a
-   ".vespertide" suffix is dropped, the stem is sanitised *)
+(* build_output_path (export.rs:222-268, fix 350766d): directory components are sanitised like the stem, the file name
+   is cut at its last '.', a ".vespertide" suffix is dropped, the stem is sanitised *)
 Definition out_stem (fname : string) : string :=
   let stem := match rsplit_dot fname with Some (before, _) => before | None => fname end in
   sanitize_filename (strip_suffix ".vespertide" stem).
+Definition out_dirs (m : emodel) : list string := map sanitize_filename (em_dirs m).
 Definition out_file (o : orm) (m : emodel) : string := out_stem (em_file m) +++ "." +++ orm_ext o.
-Definition out_path (o : orm) (m : emodel) : path := em_dirs m ++ [out_file o m].
+Definition out_path (o : orm) (m : emodel) : path := out_dirs m ++ [out_file o m].
 
-(* export.rs:255-277: with_extension(""), then file_stem() AGAIN, then ".vespertide" dropped, then
-   EVERY component sanitised (directories included) *)
+(* ensure_mod_chain (export.rs:286-306, fix 350766d): the components of build_output_path("", rel, SeaOrm), the ".rs" taken
+   off the last one again (which gives back the stem), empty components dropped *)
+Definition nonempty_name (s : string) : bool := negb (String.eqb s "").
 Definition chain_comps (m : emodel) : list string :=
-  let stem1 := rust_file_stem (em_file m) in                       (* rel_path.with_extension("") *)
-  let stem2 := if String.eqb stem1 "" then "" else rust_file_stem stem1 in  (* path_without_ext.file_stem() *)
-  let stripped := strip_suffix ".vespertide" stem2 in
-  map sanitize_filename (em_dirs m ++ (if String.eqb stripped "" then [] else [stripped])).
+  filter nonempty_name (out_dirs m ++ [out_stem (em_file m)]).
 
 (* ------------------------------------------------------------------ tree primitives *)
 Fixpoint get_entry (name : string) (es : dir) : option node :=
@@ -203,7 +202,8 @@ Definition ensure_mod_chain (m : emodel) (es : dir) : option dir := mod_chain_go
 (* ------------------------------------------------------------------ the command *)
 Inductive export_error :=
 | XNormalize          (* before anything is touched (export.rs:38-47) *)
-| XRender             (* AFTER the directory has been cleaned (export.rs:49-84) *)
+| XCollision          (* fix 18ab122: two models with one output path, or an output file mod.rs; before anything is touched *)
+| XRender             (* AFTER the directory has been cleaned *)
 | XIo.                (* a file where a directory is needed or vice versa *)
 
 Definition entity_content (m : emodel) : content := [LEntity (t_name (em_table m))].
@@ -212,10 +212,10 @@ Fixpoint write_all (o : orm) (ms : list emodel) (es : dir) : option dir :=
   match ms with
   | [] => Some es
   | m :: r =>
-      match mkdir_p (em_dirs m) es with
+      match mkdir_p (out_dirs m) es with
       | None => None
       | Some es1 =>
-          match write_at (em_dirs m) (out_file o m) (entity_content m) es1 with
+          match write_at (out_dirs m) (out_file o m) (entity_content m) es1 with
           | None => None
           | Some es2 => write_all o r es2
           end
@@ -227,11 +227,23 @@ Fixpoint chain_all (ms : list emodel) (es : dir) : option dir :=
   | m :: r => match ensure_mod_chain m es with None => None | Some es1 => chain_all r es1 end
   end.
 
+(* export.rs:50-72 (fix 18ab122): every model needs an output file of its own *)
+Fixpoint distinct_paths (l : list path) : bool :=
+  match l with
+  | [] => true
+  | p :: r => (negb (existsb (fun q => if list_eq_dec string_dec p q then true else false) r) && distinct_paths r)%bool
+  end.
+(* distinct sanitised output paths and no model whose output file is the module index `mod.rs`
+   (i.e. no model stem `mod` in a SeaORM export) *)
+Definition no_collision (o : orm) (ms : list emodel) : bool :=
+  (distinct_paths (map (out_path o) ms)
+   && forallb (fun m => negb (String.eqb (out_file o m) "mod.rs")) ms)%bool.
 Definition normalize_ok (m : emodel) : bool := match normalize (em_table m) with Ok _ => true | Err _ => false end.
 
 (* the tree is the export root (a missing root directory behaves as an empty one and is created) *)
 Definition export (o : orm) (ms : list emodel) (root : dir) : result dir export_error :=
   if negb (forallb normalize_ok ms) then Err XNormalize
+  else if negb (no_collision o ms) then Err XCollision
   else
     let cleaned := clean_dir (orm_ext o) root in
     if negb (forallb em_render_ok ms) then Err XRender
@@ -277,20 +289,10 @@ Definition same_tree (a b : dir) : bool := (flat_subset (flat a) (flat b) && fla
 
 Definition path_has_ext (e : string) (p : path) : bool := has_ext e (last p "").
 
-(* hypotheses of the theorems, as booleans *)
-Fixpoint distinct_paths (l : list path) : bool :=
-  match l with
-  | [] => true
-  | p :: r => (negb (existsb (fun q => if list_eq_dec string_dec p q then true else false) r) && distinct_paths r)%bool
-  end.
-(* distinct sanitised output paths and no model whose output file is the module index `mod.rs`
-   (i.e. no model stem `mod` in a SeaORM export) *)
-Definition no_collision (o : orm) (ms : list emodel) : bool :=
-  (distinct_paths (map (out_path o) ms)
-   && forallb (fun m => negb (String.eqb (out_file o m) "mod.rs")) ms)%bool.
-(* the module path ensure_mod_chain declares is the path build_output_path wrote *)
-Definition chain_names_ok (m : emodel) : bool :=
-  if list_eq_dec string_dec (chain_comps m) (em_dirs m ++ [out_stem (em_file m)]) then true else false.
+(* no component of the model's path is empty after sanitising (true of every path read_dir can deliver, except a file
+   whose stem is empty such as `.vespertide.json`) *)
+Definition path_names_nonempty (m : emodel) : bool :=
+  (forallb nonempty_name (em_dirs m) && nonempty_name (out_stem (em_file m)))%bool.
 
 (* `pub mod` chain from the root mod.rs down to the entity: root/mod.rs declares d1, d1/mod.rs declares d2, ... *)
 Fixpoint reachable_from (prefix : path) (comps : list string) (es : dir) : bool :=
@@ -305,4 +307,4 @@ Fixpoint reachable_from (prefix : path) (comps : list string) (es : dir) : bool 
 (* the entity file exists where build_output_path put it and the chain names exactly that place *)
 Definition entity_reachable (m : emodel) (es : dir) : bool :=
   (match file_at (out_path SeaOrm m) es with Some _ => true | None => false end
-   && reachable_from [] (em_dirs m ++ [out_stem (em_file m)]) es)%bool.
+   && reachable_from [] (out_dirs m ++ [out_stem (em_file m)]) es)%bool.
